@@ -67,11 +67,17 @@ def seq_slice(prop, tier, seed, report, budget_scale=1.0, label="slice"):
     rng = random.Random("%s/%s/%d/%s" % (prop.id, tier, seed, label))
     total = seq.SeqOutcome()
     raw_findings, raw_dis = [], []
+    pats = []
     for i in range(n_hist):
         cfg = cfg_for(i, rng)
         contents = oracle.Contents()
         u = prop.universe(rng, contents, cfg["store_alg"])
-        history = prop.history(u, length)
+        if i == 0:
+            pats = u.lifecycle_patterns()
+        if i < len(pats):
+            history = pats[i] + prop.history(u, max(2, length // 3))
+        else:
+            history = prop.history(u, length)
         out = seq.SeqOutcome()
         seq.run_history(history, cfg, contents, out, prop.owned, prop.projection)
         total.steps += out.steps
